@@ -112,6 +112,18 @@ Theorem C17_snapshot_ttl : forall c now' tti' e,
   ttl_left now' (entry_of_p now' tti' (pentry_of (c_now c) e)) = ttl_left (c_now c) e.
 Proof. exact restore_ttl. Qed.
 
+(* ... for EVERY configuration of the restoring builder (its own time_to_live ttl'
+   and time_to_idle tti' apply to later inserts only): each entry of the restored
+   cache stems from a live entry of the original with the same key, value and
+   cost and has exactly that entry's TTL left — the persisted remaining TTL wins,
+   an entry persisted without a TTL gets none *)
+Theorem C17_snapshot_ttl_any_builder : forall c ps now' ttl' tti', wf c ->
+  Permutation ps (s_entries (snapshot c)) ->
+  forall e', In e' (concat (maps (restore (mkSnap ps (c_cap c) (length (c_shs c))) now' ttl' tti'))) ->
+  exists e, In e (filter (live (c_tti c) (c_now c)) (concat (maps c)))
+            /\ kvc e' = kvc e /\ ttl_left now' e' = ttl_left (c_now c) e.
+Proof. exact restore_ttl_any_builder. Qed.
+
 (* full clause "remaining lifetimes no longer than the originals", all causes of
    expiry: REFUTED — the snapshot does not carry last_accessed, the restore
    stamps it with the restore time, so an idle timeout starts afresh *)
@@ -204,6 +216,13 @@ Example C17_example_restore :
   /\ c_cost (restore (snapshot ex_cache) 1016 None None) = 3
   /\ concat (maps (restore (snapshot ex_cache) 1016 None None)) = [mkE 2 12 2 1047 0; mkE 3 13 1 0 0].
 Proof. repeat split; vm_compute; reflexivity. Qed.
+
+(* restoring builder with time_to_live 100: the restored TTL entry keeps its 31 ticks
+   (deadline 1016 + 31), the entry without a TTL gets none; a later insert gets 100 *)
+Example C17_example_builder_ttl :
+  concat (maps (fst (run ex_cache [OSnap 7 (Some 100) None; OIns 5 15 1])))
+  = [mkE 2 12 2 1047 0; mkE 3 13 1 0 0; mkE 5 15 1 1116 0].
+Proof. vm_compute. reflexivity. Qed.
 
 (* the former witness of F-23 (snapshot taken at cost 12 > capacity 10): the
    restored cache, in either entry order, ends run_maintenance at 8 like the original *)
